@@ -525,31 +525,31 @@ package helper
 //@ lemma wcount_bounds(s stream, lo int, hi int, v real)
 //@ requires[C01,C15] lo <= hi
 //@ ensures[C01,C15] 0 <= wcount(s, lo, hi, v) && wcount(s, lo, hi, v) <= hi - lo
-//@ induction hi
+//@ induction hi from lo
 // dropping the first position of the window removes exactly one occurrence of the value that sat there
 //@ lemma wcount_dropfirst(s stream, lo int, hi int, v real)
 //@ requires[C01,C15] lo < hi
 //@ ensures[C01,C15] wcount(s, lo + 1, hi, v) == wcount(s, lo, hi, v) - (s[lo] == v ? 1 : 0)
-//@ induction hi
+//@ induction hi from lo
 // a value occurs in the window iff its count is positive
 //@ lemma wcount_member(s stream, lo int, hi int, j int)
 //@ requires[C01,C15] lo <= j && j < hi
 //@ ensures[C01,C15] wcount(s, lo, hi, s[j]) >= 1
 //@ use wcount_bounds(s, lo, hi - 1, s[j])
-//@ induction hi
+//@ induction hi from lo
 //@ lemma wcount_witness(s stream, lo int, hi int, v real)
 //@ requires[C01,C15] lo <= hi && wcount(s, lo, hi, v) >= 1
 //@ ensures[C01,C15] exists j :: lo <= j && j < hi && s[j] == v
-//@ induction hi
+//@ induction hi from lo
 // the window maximum / minimum bounds every element of the window, is bounded by every bound, hence is characterised
 //@ lemma wmax_ge(s stream, lo int, hi int, j int)
 //@ requires[C01,C15] lo <= j && j < hi
 //@ ensures[C01,C15] s[j] <= wmaxS(s, lo, hi)
-//@ induction hi
+//@ induction hi from lo
 //@ lemma wmax_le(s stream, lo int, hi int, x real)
 //@ requires[C01,C15] lo < hi && (forall j :: lo <= j && j < hi ==> s[j] <= x)
 //@ ensures[C01,C15] wmaxS(s, lo, hi) <= x
-//@ induction hi
+//@ induction hi from lo
 //@ lemma wmax_char(s stream, lo int, hi int, x real)
 //@ requires[C01,C15] lo < hi && (forall j :: lo <= j && j < hi ==> s[j] <= x) && (exists j :: lo <= j && j < hi && s[j] == x)
 //@ ensures[C01,C15] wmaxS(s, lo, hi) == x
@@ -558,11 +558,11 @@ package helper
 //@ lemma wmin_le(s stream, lo int, hi int, j int)
 //@ requires[C01,C15] lo <= j && j < hi
 //@ ensures[C01,C15] s[j] >= wminS(s, lo, hi)
-//@ induction hi
+//@ induction hi from lo
 //@ lemma wmin_ge(s stream, lo int, hi int, x real)
 //@ requires[C01,C15] lo < hi && (forall j :: lo <= j && j < hi ==> s[j] >= x)
 //@ ensures[C01,C15] wminS(s, lo, hi) >= x
-//@ induction hi
+//@ induction hi from lo
 //@ lemma wmin_char(s stream, lo int, hi int, x real)
 //@ requires[C01,C15] lo < hi && (forall j :: lo <= j && j < hi ==> s[j] >= x) && (exists j :: lo <= j && j < hi && s[j] == x)
 //@ ensures[C01,C15] wminS(s, lo, hi) == x
@@ -570,13 +570,13 @@ package helper
 //@ use wmin_le(s, lo, hi, _)
 // pointwise equal streams have equal window extrema
 //@ lemma wmax_cong(a stream, b stream, lo int, hi int)
-//@ requires[C01,C15] forall j :: lo <= j && j < hi ==> a[j] == b[j]
+//@ requires[C01,C15] lo < hi && (forall j :: lo <= j && j < hi ==> a[j] == b[j])
 //@ ensures[C01,C15] wmaxS(a, lo, hi) == wmaxS(b, lo, hi)
-//@ induction hi
+//@ induction hi from lo
 //@ lemma wmin_cong(a stream, b stream, lo int, hi int)
-//@ requires[C01,C15] forall j :: lo <= j && j < hi ==> a[j] == b[j]
+//@ requires[C01,C15] lo < hi && (forall j :: lo <= j && j < hi ==> a[j] == b[j])
 //@ ensures[C01,C15] wminS(a, lo, hi) == wminS(b, lo, hi)
-//@ induction hi
+//@ induction hi from lo
 
 // ---- sign and bound lemmas for prefix sums and the recursive averages -----------------------------------------
 //@ lemma psum_nonneg(a stream, n int)
@@ -613,3 +613,20 @@ package helper
 //@ ensures[C01,C15] emaS(a, P, m, k) == emaS(b, P, m, k)
 //@ induction k
 //@ use psum_cong(a, b, P)
+
+//@ lemma mul_step(n int, x real)
+//@ ensures[C01,C15] n * x == (n - 1) * x + x
+// a window sum lies between (window length) x (bounds of its elements)
+//@ lemma psum_window_bounds(a stream, lo int, hi int, m real, M real)
+//@ requires[C01,C15] 0 <= lo && lo <= hi && (forall j :: lo <= j && j < hi ==> m <= a[j] && a[j] <= M)
+//@ ensures[C01,C15] (hi - lo) * m <= psum(a, hi) - psum(a, lo) && psum(a, hi) - psum(a, lo) <= (hi - lo) * M
+//@ induction hi from lo
+//@ use mul_step(hi - lo, m)
+//@ use mul_step(hi - lo, M)
+
+//@ lemma div_bounds(x real, n int, m real, M real)
+//@ requires[C01,C15] n >= 1 && n * m <= x && x <= n * M
+//@ ensures[C01,C15] m <= x / n && x / n <= M
+
+// a valid bar: low <= close <= high
+//@ macro barok(h, l, c, i) = l[i] <= c[i] && c[i] <= h[i]
